@@ -1095,7 +1095,13 @@ class Unit:
                 if prefix.quantify() != 1
                 else None
             ),
-            "factors": None if factors == ((self, 1),) else factors,
+            # spelled out as plain JSON values: not every serializer (pydantic's, for
+            # one) comes back to ask how to encode a nested Unit
+            "factors": (
+                None
+                if factors == ((self, 1),)
+                else [[unit.__json__(), exponent] for unit, exponent in factors]
+            ),
         }
 
     @classmethod
@@ -1103,9 +1109,18 @@ class Unit:
         if not json_object["factors"]:
             return cls._by_name[json_object["name"]]
 
+        # the library's JSON decoder has already turned the nested objects into
+        # prefixes, units and dimensions; other parsers hand over plain dictionaries
         prefix = json_object["prefix"] or Prefix(0, 0)
-        factors = dict(json_object["factors"])
+        if isinstance(prefix, dict):
+            prefix = Prefix.__from_json__(prefix)
+        factors = {
+            (Unit.__from_json__(unit) if isinstance(unit, dict) else unit): exponent
+            for unit, exponent in json_object["factors"]
+        }
         dimension = json_object["dimension"]
+        if isinstance(dimension, dict):
+            dimension = Dimension.__from_json__(dimension)
         return Unit(prefix, factors, dimension)
 
     # Pydantic support
